@@ -42,7 +42,7 @@ def run(run, args):
     n, maxl, maxarr = (150, 200, 2500) if run.tier == "quick" else (700, 600, 30000)
     n *= run.scale
     prepare(run)
-    source_tie(run, ("mz", "convolution"))
+    source_tie(run, ("mz", "convolution", "peak"))
     rc, out, err, dt = run_harness(["conv", run.seed, n, maxl, maxarr], timeout=1200)
     if rc != 0:
         violation(run, {"broken": "harness `conv` failed", "detail": err[-2000:]}, nofail=True)
@@ -81,6 +81,7 @@ def run(run, args):
                "%d bitwise differences, %d beyond 1e-12" % (len(res[0]), len(res[1])))
     run.oblige("the exact isotopologue distribution is what every implementation output shows", not fails, "")
     broken = standard_proof_obligations(run, "C11", THEOREMS) if THEOREMS else []
+    broken += source_corollaries(run, "C11s", ['C11s_convolve_with', 'C11s_pow_threshold_zero', 'C11s_pow_multiset', 'C11s_pow_no_junk', 'C11s_threshold_zero', 'C11s_multiset', 'C11s_output_sorted', 'C11s_output_sum', 'C11s_output_above', 'C11s_driver'], ('mz', 'convolution', 'peak'))
     # floating-point level: the output is normalize().ignore_below(thr) of whatever was built, so its sum is within normalize's rounded bound
     broken += standard_proof_obligations(run, "C14f", ["C11_output_sum_rounded"], allowed_axioms=STD_FLOAT_AXIOMS)
     if fails:
